@@ -4,20 +4,23 @@
    buffer.go, reader.go, database.go); each is closed by [exact] of a lemma of
    PathDB/LayersProofs.v.
 
-   FULL STATEMENT AIMED AT (DESIGN.md C16):
-     forall c h s, run (init_db c) h = Some s -> c_relink c = true ->
-       forall root, In root (live_roots s) ->
-         (forall k, exists v, sem_state s root k = Ok v /\ read_state s root k = Ok v) /\
-         (forall k, exists v, sem_node  s root k = Ok v /\ read_node  s root k = Ok v)
-     together with  cap_preserves_sem  (sem of every surviving root is unchanged by
-     Update / cap / Commit / flush).
-   PROVED HERE: the statement for every state satisfying the layer-tree invariant
-   [Inv] (theorems ..._partial), [Inv] for the initial database, the lookup lemma
-   tip_is_nearest_modifier, and the dropped-root clause for every state.
-   MISSING: the preservation of [Inv] by tree_add / tree_cap / flush_all (hence the
-   quantification over all histories) and cap_preserves_sem; both are supported
-   only by the correspondence runs (the Go oracle is the per-root reference state). *)
-From GV Require Import Lib.Tactics PathDB.Lookup PathDB.Layers PathDB.LayersProofs.
+   PROVED: the layer-tree invariant [Inv] holds initially and is preserved by every
+   successful operation of the model -- add, cap (full commit and flattening, the
+   latter USING the sibling re-link of /repo d78fb6c457), Commit, Update, flush --
+   so it holds after every history; in every such state a lookup-based account /
+   storage read and a trie-node read at any live root return exactly the value of
+   the parent-chain fold [sem] (never an error), and a read at a dropped root is an
+   error.
+   STILL MISSING (hence ..._partial on the history theorem):
+   (a) histories are those in which every operation succeeds or is rejected leaving
+       the database untouched ([reach]); it is not proved that the internal error
+       classes (EFlush / ENotFrozen flush errors, EFuel, EBadRef) and panics cannot
+       occur, so histories in which an operation fails half-way are not covered;
+   (b) cap_preserves_sem (the VALUE of sem at a surviving root is unchanged by a
+       flatten / flush, i.e. the buffer merge and flush write the right content) is
+       not proved -- supported only by the correspondence runs (Go reference oracle);
+   (c) concurrency (read_during_cap) is not modelled. *)
+From GV Require Import Lib.Tactics PathDB.Lookup PathDB.Layers PathDB.LayersProofs PathDB.LayersInv.
 Local Open Scope N_scope.
 
 (* the lookup tip is the nearest modifier: if the entries of a key's history list
@@ -40,23 +43,41 @@ Print Assumptions C16_tip_is_nearest_modifier.
    at every root of the tree, the lookup-based read (with its stale fallback)
    returns a value, and it is the value obtained by folding the diffs along the
    root's parent chain over the disk layer (buffer, frozen buffer, store) *)
-Theorem C16_read_correct_partial : forall s root k,
+Theorem C16_read_correct_state : forall s root k,
   Inv s -> In root (live_roots s) ->
   exists v, sem_state s root k = Ok v /\ read_state s root k = Ok v.
 Proof. exact read_state_correct. Qed.
-Print Assumptions C16_read_correct_partial.
+Print Assumptions C16_read_correct_state.
 
 (* trie nodes: the chain walk ends in the live disk layer and yields a value *)
-Theorem C16_node_read_correct_partial : forall s root k,
+Theorem C16_node_read_correct_state : forall s root k,
   Inv s -> In root (live_roots s) ->
   exists v, sem_node s root k = Ok v /\ read_node s root k = Ok v.
 Proof. exact read_node_correct. Qed.
-Print Assumptions C16_node_read_correct_partial.
+Print Assumptions C16_node_read_correct_state.
 
 (* the invariant holds initially, for every configuration *)
 Theorem C16_init_inv : forall c, Inv (init_db c).
 Proof. exact init_inv. Qed.
 Print Assumptions C16_init_inv.
+
+(* every successful operation preserves the invariant (with the re-link of the
+   current code): Update = add then cap(maxDiffLayers), cap(root, n) for n = 0 and
+   n > 0, Commit, flush *)
+Theorem C16_inv_preserved : forall s o s',
+  Inv s /\ c_relink (cfg s) = true -> step s o = (s', Ok tt) ->
+  Inv s' /\ c_relink (cfg s') = true.
+Proof. exact step_inv. Qed.
+Print Assumptions C16_inv_preserved.
+
+(* ALL histories (see (a) above for the class of histories): at every live root,
+   every account / slot read and every trie-node read returns exactly sem *)
+Theorem C16_read_correct_partial : forall c h s root,
+  c_relink c = true -> reach (init_db c) h s -> In root (live_roots s) ->
+  (forall k, exists v, sem_state s root k = Ok v /\ read_state s root k = Ok v) /\
+  (forall k, exists v, sem_node s root k = Ok v /\ read_node s root k = Ok v).
+Proof. exact read_correct_all. Qed.
+Print Assumptions C16_read_correct_partial.
 
 (* a read at a root that is not (or no longer) in the tree is an error in every
    state whatsoever -- never another state's data *)
@@ -94,3 +115,14 @@ Example C16_nonvacuous :
             read_state s 5 (KA 13) = Ok [4] /\ read_node s 5 (0, [110; 49]) = Ok [1; 1] /\
             read_state s 3 (KA 12) = Err EUnavail.
 Proof. exact relink_second_cap_ok. Qed.
+
+Example C16_reach_nonvacuous :
+  exists s, reach (init_db (cfg_of true))
+                  (fork_history ++ [OUpdate 5 4 [(KA 14, [5])] []; OCap 5 1; OCap 9 1]) s /\
+            live_roots s = [4; 5].
+Proof.
+  eexists. split.
+  - repeat (eapply reach_ok; [vm_compute; reflexivity|]).
+    eapply reach_rej; [vm_compute; reflexivity|]. apply reach_nil.
+  - vm_compute. reflexivity.
+Qed.
